@@ -24,11 +24,15 @@ struct Job {
     ax: Axis,
     kind: Kind,
     f32: bool,
+    /// extreme magnitudes (Linear only): axis x cx, data x cd as seen by the implementation
+    cx: f64,
+    cd: f64,
 }
 impl Job {
     fn key(&self) -> String {
         let t = if self.f32 { "f32" } else { "f64" };
         match &self.kind {
+            Kind::Linear if self.cx != 1.0 || self.cd != 1.0 => format!("{t}:Linear:{}(axis*2^{},data*2^{})", self.ax.name, self.cx.log2(), self.cd.log2()),
             Kind::Linear => format!("{t}:Linear:{}", self.ax.name),
             Kind::Spline(s) => format!("{t}:Spline:{}:{}", self.ax.name, s.name()),
             Kind::Bilinear(ay) => format!("{t}:Bilinear:{}x{}", self.ax.name, ay.name),
@@ -220,24 +224,32 @@ fn run1d<T: Fl>(job: &Job, out: &mut JobOut) {
     };
     match &job.kind {
         Kind::Linear => {
+            let (cxt, cdt) = (T::from_f64_lossy(job.cx), T::from_f64_lossy(job.cd));
+            let xs: Vec<T> = xt.iter().map(|&v| v * cxt).collect();
+            let ds = data.mapv(|v| v * cdt);
+            if xs.iter().chain(ds.iter()).any(|v| !v.is_finite()) {
+                return;
+            }
             let (a, b) = (
-                catch(|| build_linear::<T, _>(Some(&xt), data.clone(), true)),
-                catch(|| build_linear::<T, _>(Some(&xt), data.clone(), false)),
+                catch(|| build_linear::<T, _>(Some(&xs), ds.clone(), true)),
+                catch(|| build_linear::<T, _>(Some(&xs), ds.clone(), false)),
             );
             let (Ok(Ok(ex)), Ok(Ok(no))) = (a, b) else {
                 out.violate(format!("{key}:build"), "build failed".to_string(), case(vec![]));
                 return;
             };
             out.states += 2;
-            let reference = |q: T, j: usize| -> (DD, f64) {
+            let reference = |qs: T, j: usize| -> (DD, f64) {
+                // back to the unscaled problem (exact: powers of two)
+                let q = qs / cxt;
                 let i = bracket_scan(&xt, q);
                 let (y1, y2) = (lanes[j].y[i], lanes[j].y[i + 1]);
                 let (v, _) = chord_ref(axis.x[i], y1, axis.x[i + 1], y2, Fl::to_f64(q));
                 let t = ((Fl::to_f64(q) - axis.x[i]) / (axis.x[i + 1] - axis.x[i])).abs();
                 let tol = 8.0 * T::EPS * y1.abs().max(y2.abs()).max(t * (y2 - y1).abs());
-                (v, tol)
+                (DD { hi: v.hi * job.cd, lo: v.lo * job.cd }, tol * job.cd)
             };
-            probe1d(&ex, &no, &xt, &lanes, &key, &reference, out, &case);
+            probe1d(&ex, &no, &xs, &lanes, &key, &reference, out, &case);
         }
         Kind::Spline(spec) => {
             let (a, b) = (
@@ -447,7 +459,19 @@ fn body(ctx: &Ctx) -> (Summary, Meta) {
         lin.extend(alpha::full_word_axes(&alpha::h3(), "w", 2, if quick { 4 } else { 6 }, &alpha::OFFSETS));
         lin.extend(alpha::long_word_axes(&alpha::h4(), "L", &[8, 40], 1, &[0.0]));
         for a in lin {
-            jobs.push(Job { ax: a, kind: Kind::Linear, f32 });
+            if a.name.starts_with("w[") && a.n() <= 4 && a.name.ends_with("@0") {
+                let e = if f32 { 50 } else { 400 };
+                let (big, small) = (2.0f64.powi(e), 2.0f64.powi(-e));
+                let mut pairs = vec![(big, big), (small, small), (big, 1.0), (1.0, big)];
+                if !f32 {
+                    pairs.push((2.0f64.powi(100), 2.0f64.powi(880)));
+                    pairs.push((2.0f64.powi(-100), 2.0f64.powi(-880)));
+                }
+                for (cx, cd) in pairs {
+                    jobs.push(Job { ax: a.clone(), kind: Kind::Linear, f32, cx, cd });
+                }
+            }
+            jobs.push(Job { ax: a, kind: Kind::Linear, f32, cx: 1.0, cd: 1.0 });
         }
         // Spline (exact reference: n <= 7)
         let mut sp = if quick {
@@ -465,7 +489,7 @@ fn body(ctx: &Ctx) -> (Summary, Meta) {
                 if spec.is_periodic() {
                     continue;
                 }
-                jobs.push(Job { ax: a.clone(), kind: Kind::Spline(spec), f32 });
+                jobs.push(Job { ax: a.clone(), kind: Kind::Spline(spec), f32, cx: 1.0, cd: 1.0 });
             }
         }
         // Bilinear
@@ -475,7 +499,7 @@ fn body(ctx: &Ctx) -> (Summary, Meta) {
         a2.push(Axis::new("v[1,1+e,7]".into(), vec![1.0, 1.0 + e, 7.0]));
         for ax in &a2 {
             for ay in &a2 {
-                jobs.push(Job { ax: ax.clone(), kind: Kind::Bilinear(ay.clone()), f32 });
+                jobs.push(Job { ax: ax.clone(), kind: Kind::Bilinear(ay.clone()), f32, cx: 1.0, cd: 1.0 });
             }
         }
     }
